@@ -93,6 +93,7 @@ SITES = {
     'unwrap_or_else': r'\.\s*unwrap_or_else\s*\(',
     'map_err_const': r'\.\s*map_err\s*\(',
     'map_err_fmt': r'\.\s*map_err\s*\(',
+    'map_err_opaque': r'\.\s*map_err\s*\(',
     'ok_or_else': r'\.\s*ok_or_else\s*\(',
     'map_or': r'\.\s*map_or\s*\(',
     'any_next': r'\)\s*\.\s*any\s*\(',
@@ -134,6 +135,53 @@ def bind_call(text, callee, lemma, deref):
     return text, n
 
 
+def for_indexed(text, k, by_ref, adapter):
+    """k-th `for PAT in EXPR { BODY }`  ==>  index loop over EXPR<.adapter()> (a slice / Vec):
+    `{ let __t4_s = EXPR; let mut __t4_i: usize = 0; while __t4_i < __t4_s.len() { let PAT = <&>__t4_s[__t4_i]; __t4_i += 1; BODY } }`
+    (the increment comes first so that `continue` in BODY keeps its meaning)"""
+    m = rs.mask(text)
+    hits = [h for h in rs.find_code(text, m, r'\bfor\b', 0, len(text)) if not re.match(r'\s*<', text[h[1]:])]
+    if len(hits) <= k:
+        from vunit import Undecided
+        raise Undecided('T4 for-loop #%d not found' % k)
+    s, e, mm = hits[k]
+    # pattern up to ' in ' at depth 0
+    j = e
+    d = 0
+    pat_end = None
+    while j < len(text):
+        if m[j] == rs.CODE:
+            c = text[j]
+            if c in '([{':
+                d += 1
+            elif c in ')]}':
+                d -= 1
+            elif d == 0 and re.match(r'\bin\b', text[j:j + 3]) and not (text[j - 1].isalnum() or text[j - 1] == '_'):
+                pat_end = j
+                break
+        j += 1
+    pat = text[e:pat_end].strip()
+    j = pat_end + 2
+    # expr up to '{' at depth 0
+    d = 0
+    while j < len(text):
+        if m[j] == rs.CODE:
+            c = text[j]
+            if c in '([':
+                j = rs.match_close(text, m, j) + 1
+                continue
+            if c == '{':
+                break
+        j += 1
+    expr = text[pat_end + 2:j].strip()
+    body_close = rs.match_close(text, m, j)
+    body = text[j + 1:body_close]
+    new = ('{ let __t4_s = %s%s; let mut __t4_i: usize = 0;\nwhile __t4_i < __t4_s.len() {\nlet %s = %s__t4_s[__t4_i]; __t4_i += 1;%s}\n}'
+           % (expr, ('.' + adapter + '()') if adapter else '', pat, '&' if by_ref else '', body))
+    note = 'for_indexed #%d: `for %s in %s`' % (k, pat, rs.norm_ws(re.sub('\x01T?\\d+\x01', '', expr)))
+    return text[:s] + new + text[body_close + 1:], note
+
+
 def count_sites(text, kind):
     m = rs.mask(text)
     WS = r'(?:\s|\x01T?\d+\x01)*'
@@ -155,6 +203,13 @@ def apply(text, args):
     rstart = _receiver_start(text, m, s)
     recv = text[rstart:s]
     recv_clean = re.sub('\x01T?\\d+\x01', '', recv).strip()
+    if kind == 'map_err_opaque':
+        # X.map_err(F): the error value is irrelevant to every contract -> opaque error of the unit
+        close = rs.match_close(text, m, e - 1)
+        rstart = _receiver_start(text, m, s)
+        recv = text[rstart:s]
+        new = '(match %s { Ok(__t4_v) => Ok(__t4_v), Err(_) => Err(vp_opaque_error()) })' % (recv.strip(),)
+        return text[:rstart] + new + text[close + 1:], 'map_err_opaque #%d: `%s`.map_err(%s)' % (k, rs.norm_ws(recv)[:60], rs.norm_ws(text[e:close])[:60])
     if kind == 'map_or':
         # X.map_or(D, |p| B)  ==>  match X { Some(p) => B, None => D }
         close = rs.match_close(text, m, e - 1)
